@@ -206,6 +206,35 @@ def run_binary(binary, cid, tier, race, extra_env, timeout_s):
     return res
 
 
+def crash_in_juno(log):
+    """The harness process died without writing a result. If the log shows a Go panic / fatal
+    error whose crashing goroutine consists of Juno and runtime frames only - a goroutine the
+    code under test started itself, e.g. a receiver or worker goroutine, which no harness
+    recover() can guard - return (class, text): the node would have crashed. A crashing
+    goroutine with any harness frame (or started by the harness) stays a broken check."""
+    try:
+        txt = open(log, errors="replace").read()
+    except OSError:
+        return None
+    m = re.search(r"^(panic: .*|fatal error: .*)$", txt, re.M)
+    if not m:
+        return None
+    rest = txt[m.start():]
+    g = re.search(r"^goroutine \d+ \[[^\]]*\]:\n(.*?)(?:\n\n|\Z)", rest, re.M | re.S)
+    if not g:
+        return None
+    block = g.group(1)
+    if "verifh/" in block or "/verif/h/" in block:
+        return None
+    funcs = re.findall(r"^(github\.com/NethermindEth/juno/[^\s(]+(?:\([^)]*\))?[^\s(]*)\(", block, re.M)
+    files = re.findall(r"^\t(/repo/[^\s:]+):\d+", block, re.M)
+    if not funcs or not files:
+        return None
+    msg = re.sub(r"0x[0-9a-f]+|\d+", "N", m.group(1))[:80]
+    top = re.sub(r"\(\*?([A-Za-z0-9_]+)(\[[^\]]*\])?\)", r"\1", funcs[0].replace("github.com/NethermindEth/juno/", ""))
+    return "process-crash:%s:in:%s" % (msg.replace(" ", "-"), top), rest[:6000]
+
+
 def main():
     args = sys.argv[1:]
     if args and args[0] == "--setup":
@@ -271,7 +300,26 @@ def main():
             broken.append("watchdog fired after %ds (inconclusive); log %s" % (timeout_s, r["log"]))
             continue
         if p is None:
-            broken.append("harness exited rc=%s without a result; log %s" % (r["rc"], r["log"]))
+            crash = crash_in_juno(r["log"])
+            if crash is None:
+                broken.append("harness exited rc=%s without a result; log %s" % (r["rc"], r["log"]))
+                continue
+            cls, text = crash
+            match = [f for f in findings if f["property"] == cid and f["status"] == "open" and f["class"] == cls]
+            if match:
+                known_lines.append((cls, "KNOWN-FINDING: property=%s %s [class=%s]" % (cid, match[0]["what"], cls)))
+                continue
+            d = os.environ.get("VERIF_REPLAY_DIR", os.path.join(VERIF, "replays"))
+            d = os.path.join(d, cid)
+            os.makedirs(d, exist_ok=True)
+            rp = os.path.join(d, "seed%d-%s-crash-%d.json" % (seed, tier, len(viol_lines)))
+            json.dump({"property": cid, "seed": seed, "tier": tier, "race": bool(r.get("race")), "case": -1, "class": cls,
+                       "brief": "the process running the code under test died: uncaught panic / fatal error in a goroutine "
+                                "started by Juno itself (no harness frame on its stack)", "witness": text}, open(rp, "w"), indent=1)
+            viol_lines.append("VIOLATION property=%s replay=%s" % (cid, rp))
+            cov.setdefault("violation_classes", {})[cls] = cov.get("violation_classes", {}).get(cls, 0) + 1
+            cov["notes"].append("the harness process died from a crash inside the code under test; counters of that run are missing")
+            print("  [%s] x1 %s" % (cls, text.splitlines()[0][:200]))
             continue
         if r["rc"] != 0:
             broken.append("harness exited rc=%s; log %s" % (r["rc"], r["log"]))
